@@ -1,4 +1,4 @@
-//@unit name=versionchain props=C04,C18,C03,C16
+//@unit name=versionchain props=C04,C18,C03,C16,C13
 //@strip-pub
 //@rlimit 60
 // Unit `versionchain`: which stored version a snapshot decodes (TupleReader::parse_for_snapshot) and
@@ -268,9 +268,9 @@ impl Tuple {
 //@   schema.bm() == sch_bm(schema.nvalues()) && schema.bm() >= 0,
 //@   first_delta(old(self).image()) >= 0 && wf_chain(schema, old(self).image(), first_delta(old(self).image())),
 //@ ensures
-//@   [C18:vacuum.keeps_exactly_the_deltas_at_or_above_horizon] r is Ok ==> (exists|k: int| #[trigger] keeps(schema, old(self).image(), final(self).image(), oldest_active_xid, k)),
-//@   [C18:vacuum.returns_bytes_freed] r matches Ok(n) ==> n == old(self).image().len() - final(self).image().len(),
-//@   [C18,C03:vacuum.failure_changes_nothing] r is Err ==> final(self).image() == old(self).image(),
+//@   [C18,C13:vacuum.keeps_exactly_the_deltas_at_or_above_horizon] r is Ok ==> (exists|k: int| #[trigger] keeps(schema, old(self).image(), final(self).image(), oldest_active_xid, k)),
+//@   [C18,C13:vacuum.returns_bytes_freed] r matches Ok(n) ==> n == old(self).image().len() - final(self).image().len(),
+//@   [C18,C03,C13:vacuum.failure_changes_nothing] r is Err ==> final(self).image() == old(self).image(),
 //@ ghost-after /let layout = reader\.parse_last_version\(self\.data\.effective_data\(\)\)\?;/
 //@   let ghost d = self.data.bytes();
 //@   let ghost first = first_delta(d);
